@@ -111,9 +111,18 @@ int main() {
           size_t q = e.find("', line ", pos);
           std::string elem = e.substr(pos + 10, q - (pos + 10));
           int ln = atoi(e.c_str() + q + 8);
-          std::string m2;
-          for (char c : msg) { if (c == '\n') m2 += "\\n"; else m2 += c; }
-          printf("err %d %s %s\n", ln, elem.c_str(), m2.c_str());
+          // newline as "\n"; bytes outside printable ASCII as \xHH (documents of the check are ASCII; fuzzed ones are not)
+          auto esc = [](const std::string& in) {
+            std::string o;
+            char b[8];
+            for (unsigned char c : in) {
+              if (c == '\n') o += "\\n";
+              else if (c < 0x20 || c >= 0x7f) { snprintf(b, sizeof b, "\\x%02x", c); o += b; }
+              else o += (char)c;
+            }
+            return o;
+          };
+          printf("err %d %s %s\n", ln, esc(elem).c_str(), esc(msg).c_str());
         } else {
           printf("ok reader=%s\n", hexenc(e).c_str());
         }
